@@ -26,7 +26,8 @@ Lemma failed_reg_unchanged o s s' :
   s_intr s' = s_intr s /\ only_failure_events (s_tr s) (s_tr s') = true.
 Proof.
   intros Hf H. destruct o; simpl in Hf; try discriminate.
-  - unfold exec_op in H. rewrite Hf in H. inversion H; subst. simpl. rewrite Nat.eqb_refl. auto 10.
+  - unfold exec_op in H. destruct (prio <? PRIO_LIMIT); [|discriminate].
+    rewrite Hf in H. inversion H; subst. simpl. rewrite Nat.eqb_refl. auto 10.
   - unfold exec_op in H. rewrite Hf in H. inversion H; subst. simpl. rewrite Nat.eqb_refl. auto 10.
   - unfold exec_op in H. destruct (af =? 1) eqn:E1.
     + inversion H; subst. simpl. destruct (s_tr s); rewrite ?Nat.eqb_refl; auto 10.
